@@ -156,6 +156,7 @@ type stepSpec struct {
 	//   reauth: connection #ci is (re-)bound to client #as by ClientRegistry.UpdateAuth (what a second handshake on the
 	//           same connection does; the connection is registered again first if it had been removed)
 	//   remove: connection #ci is removed from the registry (ClientRegistry.Unregister: the kick / stale-cleanup window), its stream stays open
+	Fault int `json:"fault"` // k > 0: the k-th storage call made while this command is handled fails (one-shot); -1: count the calls only
 	Ev string `json:"ev"`
 	Ci int    `json:"ci"`
 	As int    `json:"as"`
@@ -187,6 +188,9 @@ type stepOut struct {
 	SecretLeak []int64   `json:"secret_leak"`
 	Answered   bool      `json:"answered"` // sender received a success answer of a forwarded DNS request
 	TimedOut   bool      `json:"timed_out"`
+	Calls      int       `json:"calls"`       // storage calls made while the command was handled (when fault != 0)
+	FaultFired bool      `json:"fault_fired"` // the injected fault was reached
+	FaultOn    string    `json:"fault_on,omitempty"`
 	Err        string    `json:"err,omitempty"`
 	PropOK     bool      `json:"prop_ok"`
 	PropKey    string    `json:"prop_key,omitempty"`
@@ -205,6 +209,7 @@ type caseOut struct {
 
 type world struct {
 	fx       *server.VerifFixture
+	fstore   *faultStore
 	cancel   context.CancelFunc
 	clientID []int64    // index -> real client id (index 0 -> 0)
 	connID   []string   // index -> control connection id
@@ -243,12 +248,13 @@ func handshakePkt(clientID int64, token string) *packet.TransferPacket {
 
 func newWorld(c *caseIn) (*world, error) {
 	ctx, cancel := context.WithCancel(context.Background())
-	fx, err := server.VerifNewFixture(ctx, memory.New(ctx), server.VerifFixtureOptions{NodeID: "node-c11"})
+	fstore := &faultStore{Storage: memory.New(ctx)}
+	fx, err := server.VerifNewFixture(ctx, fstore, server.VerifFixtureOptions{NodeID: "node-c11"})
 	if err != nil {
 		cancel()
 		return nil, err
 	}
-	w := &world{fx: fx, cancel: cancel, mapIdx: map[string]int{}, codeIdx: map[string]int{}, domIdx: map[string]int{}}
+	w := &world{fx: fx, fstore: fstore, cancel: cancel, mapIdx: map[string]int{}, codeIdx: map[string]int{}, domIdx: map[string]int{}}
 	w.clientID = []int64{0}
 	w.connID = []string{""}
 	w.conn = []*capConn{nil}
@@ -632,6 +638,13 @@ func runStep(w *world, s *stepSpec, before *stepOut) stepOut {
 	}
 	sp := &types.StreamPacket{ConnectionID: connID, Packet: &packet.TransferPacket{PacketType: pt, CommandPacket: cp}, Timestamp: time.Now()}
 	done := make(chan error, 1)
+	if s.Fault != 0 {
+		k := s.Fault
+		if k < 0 {
+			k = 0
+		}
+		w.fstore.arm(k)
+	}
 	go func() {
 		defer func() {
 			if r := recover(); r != nil {
@@ -723,6 +736,9 @@ loop:
 	// duplex handlers write the response from a goroutine before Execute returns; oneway handlers run asynchronously:
 	// give them a moment (none is registered by the server; the aux notify handler is duplex)
 	collect()
+	if s.Fault != 0 {
+		o.Calls, o.FaultFired, o.FaultOn = w.fstore.disarm()
+	}
 	o.Ok = herr == nil && !o.TimedOut
 	if herr != nil {
 		o.Err = herr.Error()
@@ -949,6 +965,9 @@ func runCase(raw json.RawMessage) interface{} {
 	must(json.Unmarshal(raw, &c))
 	if c.Mode == "overlap" {
 		return runOverlap(raw)
+	}
+	if c.Mode == "pending" {
+		return runPending(raw)
 	}
 	out := &caseOut{PropOK: true, Steps: []stepOut{}}
 	w, err := newWorld(&c)
